@@ -4,7 +4,7 @@
 Python half (tied to the code by the correspondence check `harness/props/c29.py`):
 * `pyNetloc`      — CPython 3.12 `urllib.parse.urlsplit(url).netloc` (= `urlparse(url).netloc`), Lib/urllib/parse.py
 * `externalUrl`   — `hailtop.config.deploy_config.DeployConfig.external_url`
-* `validate`      — `auth/auth/auth.py: validate_next_page_url`
+* `validate`      — `auth/auth/auth.py: validate_next_page_url` (`validateOld`: the same before the scheme test was added)
 
 Browser half (a transcription of the WHATWG URL Standard "basic URL parser" restricted to what decides the
 scheme/host/port of the result, with the base URL `https://<auth host>/…` the redirect response is resolved
@@ -118,7 +118,17 @@ inductive Verdict where
   | unmodelled  -- the deploy config's own netlocs are `exotic`: outside the model
 deriving DecidableEq, Repr
 
-/-- `validate_next_page_url(next_page)` -/
+def sHttp : Str := ['h', 't', 't', 'p']
+def sHttps : Str := ['h', 't', 't', 'p', 's']
+
+/-- `parsed_next_page.scheme in ('http', 'https')` -/
+def schemeIsHttp (next : Str) : Bool := pyScheme next == some sHttp || pyScheme next == some sHttps
+
+/-- `validate_next_page_url(next_page)` as of commit 46b6e6f3a:
+```
+parsed_next_page = urlparse(next_page)
+if parsed_next_page.scheme not in ('http', 'https') or parsed_next_page.netloc not in valid_next_domains: raise HTTPBadRequest
+``` -/
 def validate (cfg : DeployCfg) (next : Str) : Verdict :=
   if next = [] then .deny                                   -- `if not next_page: raise HTTPBadRequest`
   else
@@ -126,7 +136,17 @@ def validate (cfg : DeployCfg) (next : Str) : Verdict :=
     if vs.any (· == .exotic) then .unmodelled
     else match pyNetloc next with
       | .exotic => .deny                                    -- ValueError, or a netloc that no non-exotic entry equals
-      | .ok n => if vs.contains (.ok n) then .accept else .deny   -- `if actual not in valid_next_domains: raise`
+      | .ok n => if schemeIsHttp next && vs.contains (.ok n) then .accept else .deny
+
+/-- the validator BEFORE commit 46b6e6f3a: only `urlparse(next_page).netloc not in valid_next_domains` was tested -/
+def validateOld (cfg : DeployCfg) (next : Str) : Verdict :=
+  if next = [] then .deny
+  else
+    let vs := validNextDomains cfg
+    if vs.any (· == .exotic) then .unmodelled
+    else match pyNetloc next with
+      | .exotic => .deny
+      | .ok n => if vs.contains (.ok n) then .accept else .deny
 
 /-! ## the browser: WHATWG basic URL parser (scheme, authority, host, port), base = `https://<auth host>/…` -/
 
@@ -335,9 +355,6 @@ def ignoreSlashes (sch : Str) (r : Str) : Dest :=
   authority sch (r.dropWhile (fun c => isSlash c || isBackslash c))
 
 def isSlashLike (c : Char) : Bool := isSlash c || isBackslash c
-
-def sHttp : Str := ['h', 't', 't', 'p']
-def sHttps : Str := ['h', 't', 't', 'p', 's']
 
 /-- relative state / relative slash state with base `https://baseHost/…` -/
 def relative (baseHost : Str) (r : Str) : Dest :=
